@@ -1,4 +1,6 @@
 import HappyProofs.C13.Revive
+import HappyProofs.C13.ReviveTrace
+import HappyProofs.C13.Partition
 import HappyProofs.C13.PhiMono
 import HappyProofs.C13.SafetyInv
 import HappyProofs.C13.Detect
@@ -10,6 +12,13 @@ C13 property theorems (statements about `Spec` predicates and model runs only).
   non-crashed member DEAD, after any action list (all probe orders, delays ≤ δ, crash times).
 * `dead_not_revived_without_incarnation` — across any action list a cell that was DEAD is ALIVE
   again only with a strictly higher incarnation.
+* `dead_never_alive_again` — the same over whole histories: along any action list (probe ticks,
+  deliveries, timeouts, crashes, partitions, heals) the successive reports of a cell pass the scan
+  the judge runs (`Spec.reviveTrace`), which `revive_trace_is_pairwise` shows to be the pairwise clause.
+* `partition_blocks`, `partition_isolates`, `heal_only_unblocks` — the network-partition component:
+  a cut blocks both directions of every pair, nothing sent across a pair that stays blocked is ever
+  in flight, healing never blocks.
+* `phi_inf_absorbing` — once `phi` is `+∞` it stays `+∞` until the next heartbeat.
 * `phi_monotone` — with no heartbeat, `phi(now)` is non-decreasing on any increasing sample grid
   (`tail`, `nlog` parameters).
 * `failure_detected_partial` — repaired handler: once the ack timeout of a probe of `x` fires at a
@@ -74,7 +83,7 @@ theorem init_node (c : Cfg) (det : D) (orders : List (List Nat)) (offs : List Na
 
 theorem inv_init (c : Cfg) (δ : Nat) (det : D) (orders : List (List Nat)) (offs : List Nat) :
     Inv c δ (Sys.init c det orders offs) := by
-  refine ⟨?_, ?_, ?_, ?_⟩
+  refine ⟨rfl, ?_, ?_, ?_, ?_⟩
   · intro a x t hp; rw [(init_node c det orders offs a).1 x] at hp; cases hp
   · intro a x _
     refine ⟨by rw [(init_node c det orders offs a).2.1 x]; simp, ?_⟩
@@ -83,10 +92,12 @@ theorem inv_init (c : Cfg) (δ : Nat) (det : D) (orders : List (List Nat)) (offs
   · intro a x t _ _ hp; rw [(init_node c det orders offs a).1 x] at hp; cases hp
 
 /-- the hypothesis on the action sequence: when an action happens at time `t`, every message still
-    in flight was sent at most `δ` before `t` ("every sent message is delivered within δ") -/
+    in flight was sent at most `δ` before `t` ("every sent message is delivered within δ"), and no
+    partition is active afterwards (the network routes every message it is handed) -/
 def timelyRun (c : Cfg) (δ : Nat) : Sys D → List Act → Bool
   | _, [] => true
-  | s, act :: rest => s.soup.all (fun m => decide (act.time ≤ m.sent + δ)) && timelyRun c δ (step c s act) rest
+  | s, act :: rest => s.soup.all (fun m => decide (act.time ≤ m.sent + δ)) && (step c s act).whole &&
+      timelyRun c δ (step c s act) rest
 
 theorem inv_run (c : Cfg) (δ : Nat) (hδ : 2 * δ < c.half + c.susp) (s : Sys D) (acts : List Act)
     (I : Inv c δ s) (ht : timelyRun c δ s acts = true) : Inv c δ (run c s acts) := by
@@ -94,7 +105,7 @@ theorem inv_run (c : Cfg) (δ : Nat) (hδ : 2 * δ < c.half + c.susp) (s : Sys D
   | nil => exact I
   | cons act rest ih =>
     simp only [timelyRun, Bool.and_eq_true, List.all_eq_true, decide_eq_true_eq] at ht
-    exact ih _ (inv_step c δ hδ s _ act.time I (fun m hm => ht.1 m hm) (step_rel c s act)) ht.2
+    exact ih _ (inv_step c δ hδ s _ act.time I (fun m hm => ht.1.1 m hm) (step_rel c s act) ht.1.2) ht.2
 
 /-! ### clause 1 -/
 
@@ -143,8 +154,6 @@ example :
 
 /-! ### clause 3 -/
 
-def obsCell (s : Sys D) (a x : Nat) : Spec.Cell := ⟨s.view a x, ((s.node a).member x).inc⟩
-
 /-- **dead_not_revived_without_incarnation**: across any action list (no hypothesis on timing) -/
 theorem dead_not_revived_without_incarnation (c : Cfg) (s : Sys D) (acts : List Act) (a x : Nat) :
     Spec.reviveOk (obsCell s a x) (obsCell (run c s acts) a x) = true := by
@@ -159,6 +168,88 @@ theorem dead_not_revived_without_incarnation (c : Cfg) (s : Sys D) (acts : List 
 example : (applyToMember (⟨.dead, 0, ()⟩ : Member Unit) ⟨1, .alive, 1⟩).st = .alive ∧
     (applyToMember (⟨.dead, 1, ()⟩ : Member Unit) ⟨1, .alive, 1⟩).st = .dead := by decide
 
+/-- **dead_never_alive_again**: clause 3 over whole histories.  For every configuration, state and
+    action list — partitions and heals included, no hypothesis on timing — the list of successive
+    reports of any cell passes `Spec.reviveTrace` (the judge's scan): after a DEAD report at
+    incarnation `k`, however many SUSPECT/DEAD reports later, no ALIVE report has incarnation `≤ k`. -/
+theorem dead_never_alive_again (c : Cfg) (s : Sys D) (acts : List Act) (a x : Nat) :
+    Spec.reviveTrace none (cellTrace c a x s acts) = true :=
+  (reviveTrace_iff_pairwise _).mpr (cellTrace_pairwise c a x s acts)
+
+/-- **revive_trace_is_pairwise**: the scan evaluated by the judge is exactly "every earlier/later
+    pair of reports satisfies `reviveOk`" -/
+theorem revive_trace_is_pairwise (cs : List Spec.Cell) :
+    Spec.reviveTrace none cs = true ↔ cs.Pairwise (fun p q => Spec.reviveOk p q = true) :=
+  reviveTrace_iff_pairwise cs
+
+/-- non-vacuity, and the scan sees through an intermediate SUSPECT report, which a comparison of
+    consecutive reports does not -/
+example : Spec.reviveTrace none [⟨.alive, 0⟩, ⟨.dead, 0⟩, ⟨.suspect, 0⟩, ⟨.alive, 0⟩] = false ∧
+    Spec.reviveOk ⟨.dead, 0⟩ ⟨.suspect, 0⟩ = true ∧ Spec.reviveOk ⟨.suspect, 0⟩ ⟨.alive, 0⟩ = true ∧
+    Spec.reviveTrace none [⟨.alive, 0⟩, ⟨.dead, 0⟩, ⟨.suspect, 1⟩, ⟨.alive, 1⟩] = true := by decide
+
+/-- a history of the model in which the cell does become DEAD: node 2 is cut off from node 0, the
+    probe of node 0 is refused by the network, both timers fire; a stale "suspect" update and a
+    later ping from node 2 (after the heal) leave it DEAD -/
+example :
+    let c : Cfg := ⟨3, 10, 5, 5, 3, true⟩
+    let acts := [Act.cut 0 [2] [0] 1, .tick 0 10 [], .timeout 0 2 15 [1], .timeout 0 2 20 [], .heal 0 21,
+                 .tick 2 10 [], .deliver 2 22]
+    (cellTrace c 0 2 (Sys.init c () [[2, 1], [0, 2], [0, 1]] [0, 0, 0]) acts).map (·.st) =
+      [.alive, .alive, .alive, .suspect, .dead, .dead, .dead, .dead] := by decide
+
+/-! ### the network-partition component -/
+
+/-- **partition_blocks**: after `partition(ga, gb)` every pair across the two groups is blocked in
+    both directions -/
+theorem partition_blocks (c : Cfg) (s : Sys D) (h : Nat) (ga gb : List Nat) (now a b : Nat)
+    (ha : a ∈ ga) (hb : b ∈ gb) :
+    (step c s (.cut h ga gb now)).blocked a b = true ∧ (step c s (.cut h ga gb now)).blocked b a = true :=
+  cut_blocks_pair c s h ga gb now a b ha hb
+
+/-- `is_partitioned(a, b)` holds before every action of the run -/
+def BlockedRun (c : Cfg) (a b : Nat) : Sys D → List Act → Prop
+  | _, [] => True
+  | s, act :: rest => s.blocked a b = true ∧ BlockedRun c a b (step c s act) rest
+
+/-- **partition_isolates**: while `a → b` stays blocked, no new message from `a` to `b` is ever in
+    flight — whatever is in flight at the end was in flight at the start (so nothing sent across the
+    partition is ever delivered) -/
+theorem partition_isolates (c : Cfg) (s : Sys D) (acts : List Act) (a b : Nat)
+    (hb : BlockedRun c a b s acts) :
+    ∀ m ∈ (run c s acts).soup, m.src = a → m.dst = b → m ∈ s.soup := by
+  induction acts generalizing s with
+  | nil => exact fun m hm _ _ => hm
+  | cons act rest ih =>
+    intro m hm hs hd
+    have h1 := ih (step c s act) hb.2 m hm hs hd
+    rcases step_soup_unblocked c s act m h1 with h | ⟨_, h⟩
+    · exact h
+    · rw [hs, hd, hb.1] at h; cases h
+
+/-- **heal_only_unblocks**: `Partition.heal()` never blocks a pair that was not blocked -/
+theorem heal_only_unblocks (c : Cfg) (s : Sys D) (h now a b : Nat)
+    (hb : (step c s (.heal h now)).blocked a b = true) : s.blocked a b = true :=
+  heal_never_blocks c s h now a b hb
+
+/-- non-vacuity: the probe ping `0 → 2` sent during the cut never reaches the soup (it is recorded as
+    refused), the pair is unblocked again after the heal, and a pair held by two handles stays blocked
+    until both are healed -/
+example :
+    let c : Cfg := ⟨3, 10, 5, 5, 3, true⟩
+    let s0 : Sys Unit := Sys.init c () [[2, 1], [0, 2], [0, 1]] [0, 0, 0]
+    let s1 := run c s0 [.cut 0 [2] [0] 1, .tick 0 10 []]
+    s1.soup = [] ∧ s1.lost.length = 1 ∧ s1.nextId = 1 ∧
+    (step c s1 (.heal 0 11)).blocked 0 2 = false ∧ (step c s1 (.heal 0 11)).whole = true ∧
+    (run c s1 [.cut 1 [0, 1] [2] 12, .heal 0 13]).blocked 2 0 = true ∧
+    (run c s1 [.cut 1 [0, 1] [2] 12, .heal 0 13, .heal 1 14]).blocked 2 0 = false := by decide
+
+example :
+    let c : Cfg := ⟨3, 10, 5, 5, 3, true⟩
+    let s0 : Sys Unit := Sys.init c () [[2, 1], [0, 2], [0, 1]] [0, 0, 0]
+    BlockedRun c 0 2 (step c s0 (.cut 0 [2] [0] 1)) [.tick 0 10 [], .timeout 0 2 15 [1]] :=
+  ⟨by decide, by decide, trivial⟩
+
 /-! ### clause 4 -/
 
 /-- **phi_monotone** -/
@@ -166,6 +257,27 @@ theorem phi_monotone (F : PhiFns) (d : QDet) (H : PhiHyp F d.ivs) (ts : List Nat
     (hs : ts.Pairwise (· ≤ ·)) :
     Spec.nondecreasing (fun a b => decide (PV.le a b)) (ts.map (d.phi F)) = true :=
   phi_samples_nondecreasing F d H ts hs
+
+/-- **phi_inf_absorbing**: once the tail probability has underflowed (`phi = +∞`) the suspicion level
+    stays `+∞` for every later sample until the next heartbeat -/
+theorem phi_inf_absorbing (F : PhiFns) (d : QDet) (H : PhiHyp F d.ivs) (t1 t2 : Nat) (h : t1 ≤ t2)
+    (hinf : d.phi F t1 = .inf) : d.phi F t2 = .inf := by
+  have hle := phi_mono_core F d H t1 t2 h
+  rw [hinf] at hle
+  cases h2 : d.phi F t2 with
+  | inf => rfl
+  | fin v => rw [h2] at hle; exact absurd hle (by simp [PV.le])
+
+/-- the judge's reading of reported bit patterns: ordered like the doubles they encode, `+∞` on top,
+    and a finite value after `+∞` is rejected by `nondecreasing` -/
+example : Spec.pvOfBits 0x7FF0000000000000 = some .inf ∧
+    Spec.pvOfBits 0x4074300000000000 = some (.fin 0x4074300000000000) ∧  -- 323.0
+    Spec.pvOfBits 0x40733A0000000000 = some (.fin 0x40733A0000000000) ∧  -- 307.625
+    Spec.nondecreasing Spec.pvLe [.fin 0x40733A0000000000, .fin 0x4074300000000000, .inf, .inf] = true ∧
+    Spec.nondecreasing Spec.pvLe [.fin 0x4074300000000000, .fin 0x40733A0000000000] = false ∧
+    Spec.nondecreasing Spec.pvLe [.inf, .fin 0x40733A0000000000] = false ∧
+    Spec.pvOfBits 0x8000000000000000 = some (.fin 0) ∧ Spec.pvOfBits 0xBFF0000000000000 = none ∧
+    Spec.pvOfBits 0x7FF8000000000000 = none := by decide
 
 def exF : PhiFns :=
   { tail := fun y => if y ≤ 0 then 100 else 100 - y, nlog := fun p => 100 - p,
